@@ -28,6 +28,9 @@ type verifRecKey struct{}
 type VerifDeadlines struct {
 	Installed []int64
 	Detach    bool
+	// Expired: every deadline analyze installs has already passed when the search starts (a budget that runs out
+	// inside the first ply); the harness' evaluator yields on every leaf so that the watcher goroutine gets to run
+	Expired bool
 }
 
 // VerifRecording returns a context for Engine.Run that carries the recorder.
@@ -39,6 +42,11 @@ func VerifRecording(ctx context.Context, r *VerifDeadlines) context.Context {
 var verifWithTimeout = func(ctx context.Context, d time.Duration) (context.Context, context.CancelFunc) {
 	if r, ok := ctx.Value(verifRecKey{}).(*VerifDeadlines); ok {
 		r.Installed = append(r.Installed, int64(d))
+		if r.Expired {
+			c, cancel := context.WithCancel(ctx)
+			cancel()
+			return c, cancel
+		}
 		if r.Detach {
 			return context.WithCancel(ctx)
 		}
